@@ -2,5 +2,5 @@ SPECIFICATION Spec
 CONSTANTS Sigma <- SigmaI
           MaxLen = 5
           Emit = FALSE
-INVARIANTS Respace Decorate BlankLine TailLine
+INVARIANTS Respace Decorate BlankLine TailLine FixpointDom
 CHECK_DEADLOCK FALSE
